@@ -1,6 +1,8 @@
 module verif/harness
 
-go 1.21
+go 1.22.0
+
+toolchain go1.23.5
 
 require (
 	github.com/mithrandie/csvq v0.0.0
@@ -9,12 +11,18 @@ require (
 )
 
 require (
+	golang.org/x/mod v0.22.0 // indirect
+	golang.org/x/sync v0.10.0 // indirect
+)
+
+require (
 	github.com/mitchellh/go-homedir v1.1.0 // indirect
 	github.com/mithrandie/go-file/v2 v2.1.0 // indirect
 	github.com/mithrandie/go-text v1.6.0 // indirect
 	golang.org/x/crypto v0.7.0 // indirect
-	golang.org/x/sys v0.6.0 // indirect
+	golang.org/x/sys v0.29.0 // indirect
 	golang.org/x/term v0.6.0 // indirect
+	golang.org/x/tools v0.29.0
 )
 
 replace github.com/mithrandie/csvq => /repo
